@@ -198,7 +198,7 @@ def reset_post(c, p):
     return and_(*conj)
 
 
-Q(name="e2_sendstream_reset", props=["C05"], func=r"streams/mod\.rs:2\d\d:1: [^>]*>::reset$",
+Q(name="e2_sendstream_reset", props=["C05"], func=r"streams/mod\.rs:\d+:1: \d+:24>::reset$",
   pure=[r"max_send_data", r"SendBuffer::unacked", r"get_mut", r"call_once"],
   functions=["SendStream::reset"], pre=reset_pre, post=reset_post, allowed_panics=r"attempt to compute",
   bounds="every StreamsState accounting state; map lookup, Send::reset, Vec::push opaque; the only connection-level counter that may change is unacked_data, by exactly SendBuffer::unacked() of the reset stream",
@@ -413,7 +413,7 @@ def he_post(c, p):
     return and_(*conj)
 
 
-Q(name="e2_handle_event_remote_check", props=["C15"], func=r"connection/mod\.rs:245:1[^>]*>::handle_event$",
+Q(name="e2_handle_event_remote_check", props=["C15"], func=r"connection/mod\.rs:\d+:1: \d+:16>::handle_event$",
   pure=[r"PartialEq>::(eq|ne)", r"remote_may_migrate", r"anti_amplification_blocked", r"BytesMut::len", r"PartialDecode::len"],
   allowed_panics=r"attempt to compute", functions=["Connection::handle_event (Datagram arm)", "ConnectionSide::remote_may_migrate (opaque)"],
   pre=he_pre, post=he_post,
@@ -441,7 +441,7 @@ def hfp_post(c, p):
     return eq(got, "(bvadd %s %s)" % (c.inp("_6.1.1", BV64), c.inp("_6.2.1", BV64)))
 
 
-Q(name="e2_first_packet_credit", props=["C07"], func=r"connection/mod\.rs:245:1[^>]*>::handle_first_packet$",
+Q(name="e2_first_packet_credit", props=["C07"], func=r"connection/mod\.rs:\d+:1: \d+:16>::handle_first_packet$",
   stop_at=[r"on_packet_authenticated"], check_stop=True, allowed_panics=r"attempt to compute",
   functions=["Connection::handle_first_packet (up to on_packet_authenticated)"], pre=hfp_pre, post=hfp_post,
   bounds="every header / payload length < 2^32: before any packet processing the anti-amplification credit of the new connection equals exactly the size of the first Initial packet (coalesced remainder is credited by handle_coalesced, outside this query)",
@@ -518,7 +518,7 @@ def opa_post(c, p):
     return and_(*conj)
 
 
-Q(name="e2_on_packet_authenticated", props=["C04"], func=r"connection/mod\.rs:245:1[^>]*>::on_packet_authenticated$",
+Q(name="e2_on_packet_authenticated", props=["C04"], func=r"connection/mod\.rs:\d+:1: \d+:16>::on_packet_authenticated$",
   pure=[r"IndexMut<SpaceId>>::index_mut", r"Index<SpaceId>>::index", r"is_server", r"is_client", r"is_ce", r"is_some"],
   modifies=lambda c: {r"reset_keep_alive|reset_idle_timeout|set_key_discard_timer": [_cf(c, "timers")],
                       r"discard_space": [_cf(c, "spaces"), _cf(c, "timers"), _cf(c, "path"), _cf(c, "zero_rtt_crypto")],
@@ -655,7 +655,7 @@ def hpp_post(c, p):
     return and_(eq(ok, expected_ok), eq(ok, "true" if applied else "false"))
 
 
-Q(name="e2_peer_params_cid_auth", props=["C14", "C04"], func=r"connection/mod\.rs:245:1[^>]*>::handle_peer_params$",
+Q(name="e2_peer_params_cid_auth", props=["C14", "C04"], func=r"connection/mod\.rs:\d+:1: \d+:16>::handle_peer_params$",
   pure=[r"is_client"], allowed_panics=r"handle_error|capacity_overflow|alloc",
   functions=["Connection::handle_peer_params", "ConnectionId == (derived, inlined: len + raw_eq of the 20 bytes)"],
   pre=hpp_pre, post=hpp_post,
@@ -720,7 +720,7 @@ def mig_post(c, p):
     return and_(*conj)
 
 
-Q(name="e2_migrate", props=["C15", "C13"], func=r"connection/mod\.rs:245:1[^>]*>::migrate$",
+Q(name="e2_migrate", props=["C15", "C13"], func=r"connection/mod\.rs:\d+:1: \d+:16>::migrate$",
   pure=[r"PathData::new$", r"PathData::from_previous$", r"CidQueue::active$", r"Connection::pto$", r"into_inner$"],
   allowed_panics=r"expect_failed|attempt to",
   functions=["Connection::migrate"], pre=mig_pre, post=mig_post,
@@ -753,7 +753,7 @@ def ci_post(c, p):
                 c.ex.read_key(st, "*_1.%d" % c.field("connection/mod.rs", "Connection", "close"), BOOL).t)
 
 
-Q(name="e2_close_inner", props=["C08"], func=r"connection/mod\.rs:245:1[^>]*>::close_inner$",
+Q(name="e2_close_inner", props=["C08"], func=r"connection/mod\.rs:\d+:1: \d+:16>::close_inner$",
   inline=[r"State::is_closed$"], functions=["Connection::close_inner", "State::is_closed (inlined)"], pre=ci_pre, post=ci_post,
   bounds="every lifecycle state; close_common / set_close_timer opaque: their order, and that they do not run at all on an already closed connection, is what is decided",
   replay=("conn_close_inner_native", lambda m: [dict(state=s) for s in range(0, 4)]))
@@ -779,9 +779,11 @@ class _Snap:
     def __init__(self, st, store):
         self.__dict__.update(st.__dict__)
         self.store = dict(store)
+        if getattr(store, "epoch", None) is not None:
+            self.epoch = dict(store.epoch)      # places untouched until then still read as their input values
 
 
-Q(name="e2_kill", props=["C08"], func=r"connection/mod\.rs:245:1[^>]*>::kill$",
+Q(name="e2_kill", props=["C08"], func=r"connection/mod\.rs:\d+:1: \d+:16>::kill$",
   functions=["Connection::kill"], pre=lambda c: "true", post=kill_post,
   bounds="every connection state and error: all timers are stopped, the state becomes Drained and exactly one Drained event is queued for the endpoint",
   replay=("conn_kill_native", lambda m: [dict(state=s) for s in range(0, 3)]))
@@ -818,7 +820,7 @@ def urc_post(c, p):
     return and_(*conj)
 
 
-Q(name="e2_update_rem_cid", props=["C09"], func=r"connection/mod\.rs:245:1[^>]*>::update_rem_cid$",
+Q(name="e2_update_rem_cid", props=["C09"], func=r"connection/mod\.rs:\d+:1: \d+:16>::update_rem_cid$",
   pure=[r"CidQueue::next$", r"index_mut$"], functions=["Connection::update_rem_cid"],
   pre=lambda c: ule(c.inp("call:CidQueue::next(*_1.%d)#discr" % c.field("connection/mod.rs", "Connection", "rem_cids"), I64), bv(1)), post=urc_post,
   bounds="every result of CidQueue::next (covered by cidq_next_step): the retired sequence range is queued on the Data space and the new CID's reset token is the one handed to set_reset_token; Vec::extend / set_reset_token opaque",
@@ -844,7 +846,7 @@ def hd_post(c, p):
     return and_(*conj)
 
 
-Q(name="e2_header_decode_advance", props=["C03", "C10"], func=r"packet\.rs:548:1[^>]*>::decode$",
+Q(name="e2_header_decode_advance", props=["C03", "C10"], func=r"packet\.rs:\d+:1: \d+:21>::decode$",
   functions=["ProtectedHeader::decode"], pre=lambda c: "true", post=hd_post, allowed_panics=r"attempt to",
   bounds="every path of the invariant-header decoder (all header forms): each Buf::advance(n) is dominated by n <= remaining() read from the same cursor immediately before (contract of Buf::advance: panics iff n > remaining()); field reads are opaque; arithmetic-overflow panics are not decided by this query",
   replay=("packet_header_decode_bounds_native", lambda m: [dict(first=0xc0), dict(first=0xd0), dict(first=0xe0), dict(first=0xf0), dict(first=0x40)]))
@@ -886,7 +888,7 @@ def spp_post(c, p):
     return and_(*conj)
 
 
-Q(name="e2_set_peer_params", props=["C05", "C06", "C13", "C08"], func=r"connection/mod\.rs:245:1[^>]*>::set_peer_params$",
+Q(name="e2_set_peer_params", props=["C05", "C06", "C13", "C08"], func=r"connection/mod\.rs:\d+:1: \d+:16>::set_peer_params$",
   pure=[r"negotiate_max_idle_timeout$", r"get_max_ack_delay$"], inline=[r"VarInt::into_inner$"], allowed_panics=r"expect",
   functions=["Connection::set_peer_params"], pre=lambda c: "true", post=spp_post,
   bounds="every received parameter set: all eleven integer parameters are stored unchanged, StreamsState::set_params gets the received set, MTU discovery is told min(max_udp_payload_size, 65535), the idle timeout is negotiated against the received max_idle_timeout; callees opaque (covered by streams / mtud / negotiate_idle obligations)",
@@ -914,7 +916,7 @@ def rao_post(c, p):
     return and_(*conj)
 
 
-Q(name="e2_received_ack_of", props=["C05"], func=r"state\.rs:144:1[^>]*>::received_ack_of$",
+Q(name="e2_received_ack_of", props=["C05"], func=r"state\.rs:\d+:1: \d+:18>::received_ack_of$",
   pure=[r"Send::is_reset$"], allowed_panics=r"attempt to compute",
   functions=["StreamsState::received_ack_of"], pre=lambda c: "true", post=rao_post,
   bounds="every outcome of the stream lookup (hash map opaque), of Send::is_reset and of Send::ack, every acknowledged range: unacked_data is reduced by the range length exactly when the stream exists and is not reset, and is untouched otherwise",
@@ -956,7 +958,7 @@ def cn_post(c, p):
     return and_(*conj)
 
 
-Q(name="e2_chunks_next_eos", props=["C01", "C11"], func=r"recv\.rs:256:1[^>]*>::next$",
+Q(name="e2_chunks_next_eos", props=["C01", "C11"], func=r"recv\.rs:\d+:1: \d+:20>::next$",
   pure=[r"Assembler::bytes_read$"], allowed_panics=r"attempt to compute|must not call|unreachable",
   functions=["Chunks::next"], pre=cn_pre, post=cn_post,
   bounds="every Recv state (final size known or not, any end / bytes_read), every outcome of Assembler::read (opaque; it may only touch the assembler): Ok(None) is returned exactly when no chunk is available, the final size is known, equals the highest received offset and equals the bytes consumed",
@@ -1035,7 +1037,7 @@ def rit_post(c, p):
     return and_(has_idle, not_(closed), "true" if when in want else "false")
 
 
-Q(name="e2_reset_idle_timeout", props=["C08"], func=r"connection/mod\.rs:245:1[^>]*>::reset_idle_timeout$",
+Q(name="e2_reset_idle_timeout", props=["C08"], func=r"connection/mod\.rs:\d+:1: \d+:16>::reset_idle_timeout$",
   inline=[r"State::is_closed$"], pure=[r"Connection::pto$", r"checked_mul$", r"Ord>::max$", r"Add<Duration>>::add$"], allowed_panics=r"expect_failed",
   functions=["Connection::reset_idle_timeout"], pre=lambda c: and_(ule(c.inp(_st(c), I64), bv(4)), ule(c.inp(_conn(c, "idle_timeout") + "#discr", I64), bv(1))), post=rit_post,
   bounds="every lifecycle state, idle timeout present or not, every packet-number space: the Idle timer is untouched without an idle timeout, stopped on a closed connection, and otherwise set to now + max(idle_timeout, 3 * pto(space)); Duration / Instant arithmetic and pto are uninterpreted functions - the obligation is WHICH values are combined how",
@@ -1053,7 +1055,7 @@ def sct_post(c, p):
     return "true" if (idx == _timer_idx(c, "Close") and when == want) else "false"
 
 
-Q(name="e2_set_close_timer", props=["C08"], func=r"connection/mod\.rs:245:1[^>]*>::set_close_timer$",
+Q(name="e2_set_close_timer", props=["C08"], func=r"connection/mod\.rs:\d+:1: \d+:16>::set_close_timer$",
   pure=[r"Connection::pto$", r"checked_mul$", r"Add<Duration>>::add$"], allowed_panics=r"expect_failed",
   functions=["Connection::set_close_timer"], pre=lambda c: "true", post=sct_post,
   bounds="every connection state: the Close timer (and only it) is set to now + 3 * pto(highest space); arithmetic uninterpreted",
@@ -1080,7 +1082,7 @@ def acc_post(c, p):
     return "true" if ok else "false"
 
 
-Q(name="e2_endpoint_accept_routing", props=["C09", "C08"], func=r"endpoint\.rs:61:1[^>]*>::accept$",
+Q(name="e2_endpoint_accept_routing", props=["C09", "C08"], func=r"endpoint\.rs:\d+:1: \d+:14>::accept$",
   pure=[r"cids_exhausted$"], ignore_untranslatable=r"^loop at", allowed_panics=r"abort|expect_failed|attempt to compute",
   functions=["Endpoint::accept"], pre=lambda c: "true", post=acc_post,
   bounds="every path of accept up to the replay of buffered datagrams (paths entering that loop are outside; they are past the routing decisions): whenever the attempt is abandoned before a connection exists (stale, CIDs exhausted, Initial fails authentication) the Initial route for its destination CID is removed; whenever a connection is created the route is re-pointed to its handle; crypto, slab, hash maps opaque",
@@ -1098,7 +1100,7 @@ def cui_post(c, p):
     return "true" if ok else "false"
 
 
-Q(name="e2_clean_up_incoming", props=["C09", "C08"], func=r"endpoint\.rs:61:1[^>]*>::clean_up_incoming$",
+Q(name="e2_clean_up_incoming", props=["C09", "C08"], func=r"endpoint\.rs:\d+:1: \d+:14>::clean_up_incoming$",
   allowed_panics=r"attempt to compute|expect_failed|invalid key", functions=["Endpoint::clean_up_incoming"], pre=lambda c: "true", post=cui_post,
   bounds="every attempt: the Initial route of the attempt's destination CID is removed and the attempt's own buffer slot is released; hash map / slab opaque",
   replay=("endpoint_dispose_incoming_native", lambda m: [dict(refuse=0), dict(refuse=1)]))
@@ -1111,7 +1113,7 @@ def disp_post(c, p):
 
 
 for _f in ("refuse", "ignore"):
-    Q(name="e2_endpoint_%s_cleans_up" % _f, props=["C09", "C08"], func=r"endpoint\.rs:61:1[^>]*>::%s$" % _f,
+    Q(name="e2_endpoint_%s_cleans_up" % _f, props=["C09", "C08"], func=r"endpoint\.rs:\d+:1: \d+:14>::%s$" % _f,
       allowed_panics=r"handle_error|capacity_overflow|alloc|attempt to", functions=["Endpoint::%s" % _f], pre=lambda c: "true", post=disp_post,
       bounds="every attempt: Endpoint::%s disposes of the attempt through clean_up_incoming exactly once (see e2_clean_up_incoming)" % _f,
       replay=("endpoint_dispose_incoming_native", lambda m: [dict(refuse=0), dict(refuse=1)]))
@@ -1152,7 +1154,7 @@ def recvd_post(c, p):
     return and_(*conj)
 
 
-Q(name="e2_streams_received_accounting", props=["C06"], func=r"state\.rs:144:1[^>]*>::received$",
+Q(name="e2_streams_received_accounting", props=["C06"], func=r"state\.rs:\d+:1: \d+:18>::received$",
   pure=[r"is_receiving$"], allowed_panics=r"attempt to|unwrap_failed",
   functions=["StreamsState::received"], pre=lambda c: "true", post=recvd_post,
   bounds="every stream lookup outcome and every verdict of Recv::ingest (covered by recv_ingest_* obligations): ingest is given the frame's payload length, the connection's data_recvd and OUR advertised local_max_data as they are at that moment; on success data_recvd grows by exactly the new bytes (saturating); on failure the error is returned",
@@ -1194,7 +1196,7 @@ def rr_post(c, p):
     return and_(*conj)
 
 
-Q(name="e2_streams_received_reset", props=["C06", "C11"], func=r"state\.rs:144:1[^>]*>::received_reset$",
+Q(name="e2_streams_received_reset", props=["C06", "C11"], func=r"state\.rs:\d+:1: \d+:18>::received_reset$",
   pure=[r"Assembler::bytes_read$"], inline=[r"VarInt::into_inner$", r"u64 as From<VarInt>>::from$"], allowed_panics=r"attempt to|unwrap_failed",
   functions=["StreamsState::received_reset"], pre=lambda c: "true", post=rr_post,
   bounds="every stream lookup outcome and every verdict of Recv::reset (covered by recv_reset): reset is given this frame's error code and final offset, the connection's data_recvd and OUR local_max_data as they are at that moment; an error is returned as is; the credit handed back is final_offset minus what was already credited (everything received on a stopped stream, everything read on an open one)",
@@ -1273,7 +1275,7 @@ def dp_post(c, p):
     return and_(*conj)
 
 
-Q(name="e2_decrypt_packet_key_update", props=["C04"], func=r"connection/mod\.rs:245:1[^>]*>::decrypt_packet$",
+Q(name="e2_decrypt_packet_key_update", props=["C04"], func=r"connection/mod\.rs:\d+:1: \d+:16>::decrypt_packet$",
   pure=[r"decrypt_packet_body$", r"Header::space$"], allowed_panics=r"attempt to",
   modifies=lambda c: {r"set_key_discard_timer$": [_conn(c, "timers")]},
   functions=["Connection::decrypt_packet"],
@@ -1303,7 +1305,7 @@ def uk_post(c, p):
     return and_(*conj)
 
 
-Q(name="e2_update_keys", props=["C04"], func=r"connection/mod\.rs:245:1[^>]*>::update_keys$",
+Q(name="e2_update_keys", props=["C04"], func=r"connection/mod\.rs:\d+:1: \d+:16>::update_keys$",
   pure=[r"index_mut$"], allowed_panics=r"expect_failed|unwrap_failed|attempt to",
   functions=["Connection::update_keys"], pre=lambda c: ule(c.inp("_2#discr", I64), bv(1)), post=uk_post,
   bounds="every connection state: one key update flips the key phase exactly once, keeps the old keys as prev_crypto tagged with who initiated the update and with the packet that ended the phase, and restarts the sent-with-these-keys counter of the Data space; key derivation opaque",
@@ -1412,7 +1414,7 @@ def dms_post(c, p):
     return and_(eq(some, has_peer), imp(some, eq(rd("_0@Some.0", BV64), want)))
 
 
-Q(name="e2_datagrams_max_size", props=["C16", "C13"], func=r"datagrams\.rs:18:1[^>]*>::max_size$",
+Q(name="e2_datagrams_max_size", props=["C16", "C13"], func=r"datagrams\.rs:\d+:1: \d+:19>::max_size$",
   pure=[r"current_mtu$", r"predict_1rtt_overhead$"], allowed_panics=r"attempt to compute",
   functions=["Datagrams::max_size"], pre=lambda c: ule(c.inp("**_1.0.%d.%d#discr" % (c.field("connection/mod.rs", "Connection", "peer_params"), tp_field(c, "max_datagram_frame_size")), I64), bv(1)), post=dms_post,
   bounds="every MTU estimate, packet overhead and peer limit: None iff the peer did not advertise max_datagram_frame_size; otherwise min(peer limit - 9 (saturating), current_mtu - predicted 1-RTT overhead - 9), i.e. a frame with its largest length field always fits one packet on the current path and the peer's limit; current_mtu / predict_1rtt_overhead opaque",
@@ -1463,7 +1465,7 @@ def dsend_post(c, p):
     return and_(*conj)
 
 
-Q(name="e2_datagrams_send", props=["C16"], func=r"datagrams\.rs:18:1[^>]*>::send$",
+Q(name="e2_datagrams_send", props=["C16"], func=r"datagrams\.rs:\d+:1: \d+:19>::send$",
   pure=[r"Datagrams::max_size$", r"has_send_buffer_space$"], allowed_panics=r"attempt to compute",
   functions=["Datagrams::send"], pre=lambda c: "true", post=dsend_post,
   bounds="every configuration, max_size verdict, datagram length and drop flag: Disabled iff receiving is disabled locally; UnsupportedByPeer iff max_size is None; TooLarge iff length > min(max_size, send buffer size); with drop the queue is trimmed for exactly this length; without drop a full buffer gives Blocked and queues nothing; only then is the datagram queued; make_space_for / has_send_buffer_space: dgram_send_space obligations",
@@ -1515,7 +1517,7 @@ def retry_post(c, p):
     return and_(*conj)
 
 
-Q(name="e2_endpoint_retry_token", props=["C14"], func=r"endpoint\.rs:61:1[^>]*>::retry$",
+Q(name="e2_endpoint_retry_token", props=["C14"], func=r"endpoint\.rs:\d+:1: \d+:14>::retry$",
   pure=[r"may_retry$", r"TimeSource>::now$"], allowed_panics=r"unwrap_failed|attempt to|handle_error|capacity_overflow|panic",
   functions=["Endpoint::retry"], pre=lambda c: "true", post=retry_post,
   bounds="every attempt: a Retry is produced exactly when Incoming::may_retry holds; the token sealed into it is a Retry token for the attempt's remote address (IP and port), the destination CID of its Initial and the server's current time; the attempt is cleaned up; the datagram is addressed to that same remote; RNG, CID generator, token key, header encoding and retry tag opaque",
@@ -1562,7 +1564,7 @@ def hfp2_post(c, p):
     return and_(*conj)
 
 
-Q(name="e2_endpoint_first_initial", props=["C07", "C14", "C09"], func=r"endpoint\.rs:61:1[^>]*>::handle_first_packet$",
+Q(name="e2_endpoint_first_initial", props=["C07", "C14", "C09"], func=r"endpoint\.rs:\d+:1: \d+:14>::handle_first_packet$",
   pure=[r"cids_exhausted$", r"PartialDecode::dst_cid$", r"PartialDecode::initial_header$", r"reserved_bits_valid$"],
   allowed_panics=r"unwrap_failed|abort|handle_error|non-initial|attempt to", ignore_untranslatable=r"^cast kind Transmute",
   functions=["Endpoint::handle_first_packet"], pre=lambda c: ule(c.inp("*_1.%d#discr" % c.field("endpoint.rs", "Endpoint", "server_config"), I64), bv(1)), post=hfp2_post,
@@ -1594,7 +1596,7 @@ def hpt_post(c, p):
     return "true" if ok else "false"
 
 
-Q(name="e2_handle_packet_tail", props=["C08"], func=r"connection/mod\.rs:245:1[^>]*>::handle_packet$",
+Q(name="e2_handle_packet_tail", props=["C08"], func=r"connection/mod\.rs:\d+:1: \d+:16>::handle_packet$",
   src="connection/mod.rs", within=r"^    fn handle_packet\(", start_line=r"if !was_closed && self\.state\.is_closed\(\)",
   inline=[r"State::is_closed$", r"State::is_drained$"], allowed_panics=r".",
   functions=["Connection::handle_packet (slice: from `if !was_closed && self.state.is_closed()` to the end)"], pre=lambda c: "true", post=hpt_post,
@@ -1621,7 +1623,7 @@ def ra_post(c, p):
     return "true" if not upd else "false"
 
 
-Q(name="e2_retry_acceptance_slice", props=["C14", "C04"], func=r"connection/mod\.rs:245:1[^>]*>::process_decrypted_packet$",
+Q(name="e2_retry_acceptance_slice", props=["C14", "C04"], func=r"connection/mod\.rs:\d+:1: \d+:16>::process_decrypted_packet$",
   src="connection/mod.rs", within=r"^    fn process_decrypted_packet\(", start_line=r"if self\.total_authed_packets >", end_line=r"let client_hello = state\.client_hello\.take\(\)\.unwrap\(\);",
   pure=[r"is_valid_retry$", r"CidQueue::active$", r"BytesMut::len$", r"Bytes::len$"], check_stop=True, allowed_panics=r".",
   functions=["Connection::process_decrypted_packet (slice: the Retry acceptance test)"], pre=lambda c: "true", post=ra_post,
@@ -1642,7 +1644,7 @@ def rs_post(c, p):
     return "true" if (ds and ds[0] < new[0]) else "false"
 
 
-Q(name="e2_retry_resets_initial_space_slice", props=["C12"], func=r"connection/mod\.rs:245:1[^>]*>::process_decrypted_packet$",
+Q(name="e2_retry_resets_initial_space_slice", props=["C12"], func=r"connection/mod\.rs:\d+:1: \d+:16>::process_decrypted_packet$",
   src="connection/mod.rs", within=r"^    fn process_decrypted_packet\(", start_line=r"let client_hello = state\.client_hello\.take\(\)\.unwrap\(\);", end_line=r"let zero_rtt = mem::take\(",
   check_stop=True, allowed_panics=r".", ignore_untranslatable=r"^loop at",
   functions=["Connection::process_decrypted_packet (slice: re-initialisation of the Initial space after a Retry)"], pre=lambda c: "true", post=rs_post,
@@ -1692,7 +1694,7 @@ def bh_post(c, p):
     return and_(*conj)
 
 
-Q(name="e2_black_hole_purges_datagrams_slice", props=["C16", "C13"], func=r"connection/mod\.rs:245:1[^>]*>::detect_lost_packets$",
+Q(name="e2_black_hole_purges_datagrams_slice", props=["C16", "C13"], func=r"connection/mod\.rs:\d+:1: \d+:16>::detect_lost_packets$",
   src="connection/mod.rs", within=r"^    fn detect_lost_packets\(", start_line=r"if self\.path\.mtud\.black_hole_detected\(now\)", end_line=r"let lost_ack_eliciting = ",
   check_stop=True, allowed_panics=r".", ignore_untranslatable=r"^loop at",
   modifies=lambda c: {r"on_mtu_update$": ["*call:"], r"Datagrams::max_size$": []},
@@ -1720,7 +1722,7 @@ def pg_post(c, p):
     return and_(eq(a[1].t, "((_ extract 15 0) %s)" % segv), ule("(bvadd %s %s)" % (zext(startv, 64), zext(segv, 64)), zext(capv, 64)))
 
 
-Q(name="e2_poll_transmit_pad_guard_slice", props=["C13"], func=r"connection/mod\.rs:245:1[^>]*>::poll_transmit$",
+Q(name="e2_poll_transmit_pad_guard_slice", props=["C13"], func=r"connection/mod\.rs:\d+:1: \d+:16>::poll_transmit$",
   src="connection/mod.rs", within=r"^    pub fn poll_transmit\(", start_line=r"if pad_datagram_to_mtu && ", end_line=r"let last_packet_number = builder\.exact_number;",
   check_stop=True, allowed_panics=r".", ignore_untranslatable=r"^loop at",
   functions=["Connection::poll_transmit (slice: the padding decision before a packet is finished)"], pre=lambda c: "true", post=pg_post,
@@ -1786,7 +1788,7 @@ def gate_post_wrap(c, p):
     return and_(*r)
 
 
-Q(name="e2_poll_transmit_new_datagram_gate_slice", props=["C07", "C12"], func=r"connection/mod\.rs:245:1[^>]*>::poll_transmit$",
+Q(name="e2_poll_transmit_new_datagram_gate_slice", props=["C07", "C12"], func=r"connection/mod\.rs:\d+:1: \d+:16>::poll_transmit$",
   src="connection/mod.rs", within=r"^    pub fn poll_transmit\(", start_line=r"if num_datagrams >= max_datagrams \{", end_line=[r"if let Some\(mut builder\) = builder_storage\.take\(\) \{", r"(?#loophead)while space_idx < spaces\.len\(\) \{", r"if let Some\(mut builder\) = builder_storage \{"],
   pure=[r"anti_amplification_blocked$", r"Controller>::window$", r"Index<SpaceId>>::index$", r"RttEstimator::get$", r"current_mtu$"],
   check_stop=True, allowed_panics=r".", ignore_untranslatable=r"^loop at",
@@ -1811,7 +1813,7 @@ def mp_post(c, p):
     return validated
 
 
-Q(name="e2_poll_transmit_mtu_probe_gate_slice", props=["C07"], func=r"connection/mod\.rs:245:1[^>]*>::poll_transmit$",
+Q(name="e2_poll_transmit_mtu_probe_gate_slice", props=["C07"], func=r"connection/mod\.rs:\d+:1: \d+:16>::poll_transmit$",
   src="connection/mod.rs", within=r"^    pub fn poll_transmit\(", start_line=r"if buf\.is_empty\(\) && self\.state\.is_established\(\)", end_line=r"self\.stats\.path\.sent_plpmtud_probes \+= 1;",
   pure=[r"anti_amplification_blocked$"], inline=[r"State::is_established$"], check_stop=True, allowed_panics=r".", ignore_untranslatable=r"^loop at",
   functions=["Connection::poll_transmit (slice: the MTU probe section after the main loop)"], pre=lambda c: "true", post=mp_post,
@@ -1840,7 +1842,7 @@ def opa2_post(c, p):
     return and_(eliciting, eq(a[3][1].t, zext(size, 48)) if ok_size else "false")
 
 
-Q(name="e2_on_packet_acked_slice", props=["C12"], func=r"connection/mod\.rs:245:1[^>]*>::on_packet_acked$",
+Q(name="e2_on_packet_acked_slice", props=["C12"], func=r"connection/mod\.rs:\d+:1: \d+:16>::on_packet_acked$",
   src="connection/mod.rs", within=r"^    fn on_packet_acked\(", end_line=r"if let Some\(retransmits\) = info\.retransmits\.get\(\)",
   check_stop=True, allowed_panics=r".", ignore_untranslatable=r"^loop at",
   functions=["Connection::on_packet_acked (up to the per-frame delivery loops)"], pre=lambda c: "true", post=opa2_post,
@@ -1869,7 +1871,7 @@ def nc_post(c, p):
     return and_(*conj)
 
 
-Q(name="e2_endpoint_new_cid_no_overwrite", props=["C09"], func=r"endpoint\.rs:61:1[^>]*>::new_cid$",
+Q(name="e2_endpoint_new_cid_no_overwrite", props=["C09"], func=r"endpoint\.rs:\d+:1: \d+:14>::new_cid$",
   loop_is_stop=True, check_stop=True, allowed_panics=r".",
   functions=["Endpoint::new_cid (one iteration of its retry loop)"], pre=lambda c: "true", post=nc_post,
   bounds="one iteration of the generate-and-retry loop, every outcome of the generator and of the table look-up (hash map opaque): the CID routing table is modified only through a vacant entry obtained for the generated CID, or by an insert that replaced nothing - a colliding CID never re-points an existing route; the loop's other iterations start from the same (arbitrary) state",
@@ -1886,7 +1888,7 @@ def ht_post(c, p):
     return "false" if (v is not None and v.t == "true") else "true"
 
 
-Q(name="e2_handle_timeout_iteration", props=["C08"], func=r"connection/mod\.rs:245:1[^>]*>::handle_timeout$",
+Q(name="e2_handle_timeout_iteration", props=["C08"], func=r"connection/mod\.rs:\d+:1: \d+:16>::handle_timeout$",
   loop_is_stop=True, check_stop=True, allowed_panics=r".",
   functions=["Connection::handle_timeout (one iteration of its loop over Timer::VALUES, every timer)"], pre=lambda c: "true", post=ht_post,
   bounds="one iteration for an arbitrary timer (the timer value read from Timer::VALUES is unconstrained) from an arbitrary connection state: no arm of handle_timeout stores `true` into permit_idle_reset - a keep-alive or any other self-generated event must not let the connection restart its own idle timer; writes made inside the opaque handlers it calls are outside",
@@ -1950,7 +1952,7 @@ def opr_post(c, p):
     return ule(zext(a[1].t, 112), "(bvmul %s %s)" % (zext(received, 64), bv(3, 128)))
 
 
-Q(name="e2_off_path_response_slice", props=["C07"], func=r"connection/mod\.rs:245:1[^>]*>::poll_transmit$",
+Q(name="e2_off_path_response_slice", props=["C07"], func=r"connection/mod\.rs:\d+:1: \d+:16>::poll_transmit$",
   src="connection/mod.rs", within=r"^    pub fn poll_transmit\(", start_line=r"self\.path_responses\.pop_off_path\(self\.path\.remote\)", end_line=[r"self\.populate_packet\(now, space_id, buf", r"let sent =$"],
   check_stop=True, allowed_panics=r".", ignore_untranslatable=r"^loop at",
   functions=["Connection::poll_transmit (slice: the off-path PATH_RESPONSE datagram)", "PathResponses::pop_off_path (opaque)"], pre=lambda c: "true", post=opr_post,
@@ -1981,3 +1983,61 @@ Q(name="e2_defragment_frontier", props=["C01"], func=r"assembler\.rs[^>]*>::defr
   pre=lambda c: ule(c.inp("*_1.%d#discr" % c.field("connection/assembler.rs", "Assembler", "state"), I64), bv(1)), post=dfr_post,
   bounds="every assembler state: the first try_mark_defragment call - the one for the chunk with the lowest offset - is given the read cursor as its frontier in ordered mode and 0 in unordered mode (the later iterations continue from the previous chunk's end: assembler_defragment_step); heap and sort opaque",
   replay=("assembler_ordered_then_unordered_native", lambda m: [dict(a=10, o=5, b=10), dict(a=10, o=0, b=20), dict(a=10, o=3, b=4)]))
+
+
+# ------------------------------------------------------------------ C07: coalesced packets are credited to the anti-amplification budget exactly once
+def hc_entry_post(c, p):
+    st = p.p.state
+    TR = "*_1.%d.%d" % (c.field("connection/mod.rs", "Connection", "path"), _pd(c, "total_recvd"))
+    first = next((x for x in st.calls if x[3] is not None and re.search(r"handle_decode$", x[0])), None)
+    view = _Snap(st, first[3]) if first else st
+    got = c.ex.read_key(view, TR, BV64).t
+    n = c.inp("_5.1", BV64)              # data.len() (BytesMut { ptr, len, cap, data })
+    old = c.inp(TR, BV64)
+    sat = "(ite (bvult (bvadd %s %s) %s) %s (bvadd %s %s))" % (old, n, old, bv((1 << 64) - 1), old, n)
+    return eq(got, sat)
+
+
+Q(name="e2_handle_coalesced_credit", props=["C07"], func=r"connection/mod\.rs:245:1[^>]*>::handle_coalesced$",
+  loop_is_stop=True, check_stop=True, allowed_panics=r".",
+  functions=["Connection::handle_coalesced (entry and first iteration)"], pre=lambda c: "true", post=hc_entry_post,
+  bounds="every datagram remainder: before the first coalesced packet is processed the path has been credited with exactly the length of the remainder (saturating)",
+  replay=("conn_handle_coalesced_credit_native", lambda m: [dict(k=1), dict(k=3)]))
+
+
+def hc_body_post(c, p):
+    st = p.p.state
+    TR = "*_1.%d.%d" % (c.field("connection/mod.rs", "Connection", "path"), _pd(c, "total_recvd"))
+    first = next((x for x in st.calls if x[3] is not None and re.search(r"handle_decode$", x[0])), None)
+    view = _Snap(st, first[3]) if first else st
+    return eq(c.ex.read_key(view, TR, BV64).t, c.inp(TR, BV64))
+
+
+Q(name="e2_handle_coalesced_loop_body_slice", props=["C07"], func=r"connection/mod\.rs:245:1[^>]*>::handle_coalesced$",
+  src="connection/mod.rs", within=r"^    fn handle_coalesced\(", start_line=r"while let Some\(data\) = remaining",
+  loop_is_stop=True, check_stop=True, allowed_panics=r".",
+  functions=["Connection::handle_coalesced (slice: one iteration of the packet-splitting loop from an arbitrary state)"], pre=lambda c: "true", post=hc_body_post,
+  bounds="one iteration of the loop over coalesced packets from an arbitrary state: up to the point where the packet is handed to handle_decode (which may legitimately move the connection to another path) the credit of the path is not touched again - the k-th packet of a datagram is not counted k times",
+  replay=("conn_handle_coalesced_credit_native", lambda m: [dict(k=1), dict(k=3)]))
+
+
+# ------------------------------------------------------------------ C04 / C14: a resumed (0-RTT) connection starts without the previous connection's per-connection secrets
+def i0_post(c, p):
+    st = p.p.state
+    sp = p.called(r"Connection::set_peer_params$")
+    if not sp:
+        return "true"            # no early keys, a server, or malformed remembered parameters: nothing is installed
+    a = sp[0][1][1]
+    if a[0] != "agg":
+        return "false"
+    snap = _Snap(st, sp[0][3])
+    none = lambda n: eq(c.ex.read_key(snap, "%s.%d#discr" % (a[1], tp_field(c, n)), I64).t, bv(0))
+    # remembered transport parameters never carry over values that identify or authenticate the OLD connection
+    return and_(*[none(n) for n in ("stateless_reset_token", "initial_src_cid", "original_dst_cid", "retry_src_cid", "preferred_address")])
+
+
+Q(name="e2_init_0rtt_scrubs_params", props=["C04", "C14"], func=r"connection/mod\.rs:245:1[^>]*>::init_0rtt$",
+  pure=[r"is_client$"], allowed_panics=r".",
+  functions=["Connection::init_0rtt"], pre=lambda c: "true", post=i0_post,
+  bounds="every remembered parameter set: what is installed for the 0-RTT phase has no stateless reset token, no initial / original / retry connection IDs and no preferred address - a datagram ending in the previous connection's reset token cannot end the new one, and CID authentication starts from scratch",
+  replay=None)
